@@ -16,6 +16,10 @@ func init() {
 
 func verifC13Refcount() {
 	m, sock := verifNewMux()
+	if verifChoice(2) == 1 { // a socket with the AddrPort methods: handles of the AddrPort flavour
+		m, sock = verifNewMuxAP()
+		verifReach("addrport-handles")
+	}
 	verifRunGoroutines()
 	n := 2 + verifChoice(2)
 	var hs []net.PacketConn
@@ -45,7 +49,7 @@ func verifC13Refcount() {
 			verifAssert(under.closed == (open == 0), "underlying-closed-exactly-when-the-last-handle-closed")
 		case 1: // write
 			n0 := len(sock.sent)
-			_, err := hs[hi].WriteTo([]byte{1, 2}, peer)
+			_, err := verifHandleWrite(hs[hi], []byte{1, 2}, peer)
 			if closedH[hi] {
 				verifReach("write-on-closed-handle")
 				verifAssert(err == io.ErrClosedPipe && len(sock.sent) == n0, "closed-handle's-writes-fail")
@@ -59,14 +63,14 @@ func verifC13Refcount() {
 			}
 			verifAssert(under.writePacket([]byte{9}, peer.AddrPort(), peer) == nil, "queue-packet")
 			buf := make([]byte, 4)
-			nr, _, err := hs[hi].ReadFrom(buf)
+			nr, err := verifHandleRead(hs[hi], buf)
 			if closedH[hi] {
 				verifReach("read-on-closed-handle")
 				verifAssert(err == io.ErrClosedPipe && nr == 0, "closed-handle's-reads-fail")
 				// drain through an open sibling so the queue stays bounded
 				for j := range hs {
 					if !closedH[j] {
-						_, _, e2 := hs[j].ReadFrom(buf)
+						_, e2 := verifHandleRead(hs[j], buf)
 						verifAssert(e2 == nil, "sibling-reads-the-packet")
 						break
 					}
